@@ -531,6 +531,30 @@ producer_ext_cases = st.builds(
 )
 
 
+# focused family: a long producer stream of small, mostly incompressible batches read through a response codec under a
+# small wire cap — the cap has to cut the *continuation* turns (whose whole body is the codec's output) as well
+producer_codec_cases = st.builds(
+    _mk,
+    st.just("producer"),
+    st.lists(
+        st.fixed_dictionaries({
+            "rows": st.sampled_from([1, 1, 2]),
+            "size": st.one_of(st.integers(200, 1500), st.sampled_from([512, 1024, 2048])),
+            "comp": st.sampled_from([False, False, False, True]),
+            "logs": st.sampled_from([0, 0, 1]),
+            "pad": st.sampled_from([0, 0, 16, 300]),
+        }),
+        min_size=6, max_size=14,
+    ),
+    st.just({"storage": False, "thr": {"abs": 0}, "compression": None}),
+    st.one_of(st.fixed_dictionaries({"abs": st.sampled_from([500, 1000, 2000, 4096, 8192])}), _wire_rel),
+    st.none(),
+    st.sampled_from(["zstd", "gzip"]),
+    st.booleans(),
+)
+
+
 def main(chk: Check) -> None:
     chk.explore("caps", cases, run_case, quick=900, thorough=10000)
+    chk.explore("producer_codec", producer_codec_cases, run_case, quick=150, thorough=2500)
     chk.explore("producer_ext", producer_ext_cases, run_case, quick=300, thorough=3000)
